@@ -24,6 +24,11 @@ CONTRACTS = {
                              "message_args": ["line", "column + 1"]},
                     "invariants": {"1": "INV_PARENT"}, "wf": "partial_tree", "none_safety": True,
                     "props": ["C10"], "families": ["syntax_errors"]},
+    # the constructor every BlackbirdSyntaxError(...) runs: it must hand the exception object back, whatever the interpreter's exception state
+    #   ensures  returns None on every path; no exception escapes (the AttributeError of `None.tb_lineno` is caught); writes nothing
+    "NoTraceBack_init": {"qual": "NoTraceBack.__init__", "params": ["self", "msg"], "mode": "post", "reads": [], "modifies": [], "raises": [],
+                         "post": {"returns_none": True}, "none_safety": True,
+                         "props": ["C10", "C11", "C12"], "families": ["syntax_errors"]},
 }
 
 
